@@ -8,7 +8,7 @@ PID = "C09"
 MANIFEST_ENTRY = {
  "level_claimed": {
   "category": "proof",
-  "text": "Theorems in coq/Properties/C09.v: for all i32 operands every GarnishNumber operation equals the exact result in Z when representable and unit otherwise (never wraps; MIN % -1, zero divisors, negative exponents, shift counts outside 0..31 are unit); i32->f64 promotion is exact; float and mixed + - * / are the correctly rounded IEEE-754 result or unit (via Flocq); no non-finite float is ever returned; bitwise on a float is unit; the float and mixed remainder `%` (C fmod) is EXACT for every finite dividend and non-zero finite divisor (C09_float_remainder_exact: finite result r = x - q*y for an integer q, |r| < |y|, zero or the sign of x - the C standard's definition, shown to determine r by C09_remainder_spec_unique; no rounding occurs). The model is tied to data/src/data/number.rs by running both on the boundary lattice x every operation plus float/mixed pairs on every run, and an independent exact-arithmetic oracle checks the implementation directly.",
+  "text": "Theorems in coq/Properties/C09.v: for all i32 operands every GarnishNumber operation equals the exact result in Z when representable and unit otherwise (never wraps; MIN % -1, zero divisors, negative exponents, shift counts outside 0..31 are unit); i32->f64 promotion is exact; float and mixed + - * / are the correctly rounded IEEE-754 result or unit (via Flocq); no non-finite float is ever returned; bitwise on a float is unit; the float and mixed remainder `%` (C fmod) is EXACT for every finite dividend and non-zero finite divisor (C09_float_remainder_exact: finite result r = x - q*y for an integer q, |r| < |y|, zero or the sign of x - the C standard's definition, shown to determine r by C09_remainder_spec_unique; C09_float_remainder_is_trunc: r = x - trunc(x/y)*y; no rounding occurs). The model is tied to data/src/data/number.rs by running both on the boundary lattice x every operation plus float/mixed pairs on every run, and an independent exact-arithmetic oracle checks the implementation directly.",
   "design_ref": "DESIGN.md section 8 C09"
  },
  "level_note": "Trusted: Coq kernel; Flocq's four standard-library axioms; extraction (ExtrOcamlBasic only); the Rust harness and Python oracle; f64::powf is an oracle (no theorem about its real value); that Rust's f64 `%` is C fmod as modelled is tied by correspondence (bit-for-bit on every run). Known finding C09-K1 (float // saturates) is excluded and re-confirmed on every run.",
